@@ -217,6 +217,8 @@ def generate(rng, tier, idx):
                                            (['updfail:zz-other'] if len(level_m[0]) == 1 else []),
                                            rng.choice([1, 1, 2]))
                 if rng.random() < 0.3:
+                    pr['ldr_noopenpgp'] = True
+                if rng.random() < 0.3:
                     pr['ldr_hashes'] = rng.choice([['BLAKE2B', 'SHA512'], ['SHA3_256'], ['BLAKE2S', 'SHA3_512']])
                     if rng.random() < 0.3:
                         pr['ldr_profile'] = rng.choice(['ebuild', 'old-ebuild'])
@@ -308,6 +310,8 @@ def execute(sc):
                 seam.begin_op(i)
                 # constructor options that only matter for updates (hash set, sorting, profile) must not weaken lookups
                 lkw = {}
+                if op.get('ldr_noopenpgp'):
+                    lkw['verify_openpgp'] = False      # (`-P`: the hash chain is owed with or without signature checks)
                 if op.get('ldr_hashes'):
                     lkw['hashes'] = list(op['ldr_hashes'])
                 if op.get('ldr_profile'):
